@@ -27,6 +27,8 @@ type World struct {
 	lemmas    map[string]*Lemma
 	lemmaList []*Lemma
 	invs      map[string]*InvDef
+	chanInvs  map[string]*InvDef // key: pkgpath.Struct.field
+	claimed   map[string]bool    // function keys of the claim being checked
 	consts    map[string]string
 	ghosts    map[string]*GhostDecl
 	files     []*ContractFile
@@ -56,7 +58,7 @@ func loadWorld(repo string, patterns []string, extraContractDirs []string) (*Wor
 	}
 	prog, _ := ssautil.AllPackages(pkgs, ssa.GlobalDebug)
 	w := &World{repo: repo, prog: prog, pkgs: map[string]*ssa.Package{}, tpkgs: map[string]*packages.Package{},
-		funcSpecs: map[string]*FuncSpec{}, specFuncs: map[string]*SpecFunc{}, lemmas: map[string]*Lemma{},
+		funcSpecs: map[string]*FuncSpec{}, claimed: map[string]bool{}, specFuncs: map[string]*SpecFunc{}, lemmas: map[string]*Lemma{},
 		invs: map[string]*InvDef{}, consts: map[string]string{}, ghosts: map[string]*GhostDecl{},
 		immGlobal: map[*ssa.Global]string{}, globalStruct: map[*ssa.Global][]*ssa.Const{}, opaque: map[string]bool{}}
 	packages.Visit(pkgs, nil, func(p *packages.Package) {
@@ -141,6 +143,12 @@ func (w *World) addFile(cf *ContractFile) {
 			dup("spec function/invariant", i.Name, cf.Path)
 		}
 		w.invs[i.Name] = i
+	}
+	for _, ci := range cf.ChanInvs {
+		if w.chanInvs == nil {
+			w.chanInvs = map[string]*InvDef{}
+		}
+		w.chanInvs[cf.Pkg+"."+ci.Type] = ci
 	}
 	for _, g := range cf.Ghosts {
 		if _, ok := w.ghosts[g.Name]; ok {
